@@ -197,13 +197,21 @@ def betw_request(A, w, S, T, perm):
 
 
 def impl_betw(pnet, S, T, perm):
-    """the 3 sections of `betwRelabelled`: the renumbered target list, and — for C03's kernel model
+    """the 7 sections of `betwRelabelled`: the renumbered target list, and — for C03's kernel model
     and for its definition alike — `nsi_betweenness(sources, targets)` of the renumbered network
-    called with the node lists renumbered through the inverse permutation (list order kept)"""
+    called with the node lists renumbered through the inverse permutation (list order kept);
+    round 5b (C03's wrapper model `apiBetweenness`, theorem net_betweenness_api_relabel): the
+    defaults `nsi_betweenness()`, `sources=` only, `targets=` only (the renumbered network's
+    default `np.arange(N)` is a rearrangement of the old default renumbered, not the same list),
+    and `interregional_betweenness(sources, targets)` (unit weights)"""
     inv = np.argsort(np.array(perm))
     Sp, Tp = [int(inv[k]) for k in S], [int(inv[k]) for k in T]
     got = attempt(pnet.nsi_betweenness, sources=Sp, targets=Tp)
-    return [[float(x) for x in Tp], got, got]
+    return [[float(x) for x in Tp], got, got,
+            attempt(pnet.nsi_betweenness),
+            attempt(pnet.nsi_betweenness, sources=Sp),
+            attempt(pnet.nsi_betweenness, targets=Tp),
+            attempt(pnet.interregional_betweenness, sources=Sp, targets=Tp)]
 
 
 def impl_net(pnet, directed, connected):
@@ -1077,7 +1085,11 @@ def run(ctx):
                     "measures, coreness peeling, n.s.i. degree / clustering / closeness, assortativity, "
                     "local vulnerability = node removal + BFS + efficiencies, cliquishness kernels)",
              "betw": "C03 model `NetBetw` (kernel model of _nsi_betweenness *and* its definition, with node "
-                     "weights, source mask and target list renumbered with the nodes)",
+                     "weights, source mask and target list renumbered with the nodes; kernel model == "
+                     "definition is no longer a hypothesis of a theorem — net_betweenness_kernel_relabel is "
+                     "proved for every undirected network — and stays as a correspondence; round 5b: the "
+                     "wrapper model apiBetweenness with default sources / targets and "
+                     "interregional_betweenness)",
              "netw": "C03 model `Net` / `NetRW` (link-weighted `key=` motif clustering, "
                      "weighted_local_clustering with the renumbered link attribute)",
              "cross": "C11 model `Cross` (cross / internal measures with node lists renumbered by "
